@@ -165,16 +165,23 @@ func cmdCheck(args []string) int {
 	var vcs []*FuncVC
 	var undecided []string
 	for _, k := range keys {
+		if ct := ss.Contracts[k]; ct.IsIface {
+			// refinement: every implementing method in the package satisfies the interface-level contract
+			rvcs, und := ctx.genRefinements(ct)
+			undecided = append(undecided, und...)
+			for _, vc := range rvcs {
+				vc.attachFindings(findings, prop)
+				vcs = append(vcs, vc)
+			}
+			continue
+		}
 		fn := ctx.lookupFunc(k)
 		if fn == nil {
 			undecided = append(undecided, shortKey(k)+": contract target not found in /repo")
 			continue
 		}
 		ct := ss.Contracts[k]
-		var hd map[int][]*Clause
-		if ct.Houdini {
-			hd = ctx.houdini(fn, ct, work)
-		}
+		hd := ctx.houdini(fn, ct, work)
 		vc := ctx.genFunc(fn, ct, hd)
 		vc.attachFindings(findings, prop)
 		vcs = append(vcs, vc)
